@@ -210,6 +210,18 @@ def mapeqh : Handler := fun args impl =>
         else if ie == "T" && ih != "T" then some "equal but hashes differ"
         else none
       { model := tf me ++ "/" ++ (if me then "T" else ih), spec := spec }
+    | some o₁, some o₂, _ =>
+      -- `?asymmetric:<a == b>:<b == a>`: the harness saw the two directions of `==` disagree
+      if impl.startsWith "?asymmetric" then
+        let po := cfg == "po"
+        let m₁ := (runModel po (o₁.map (resolveAppend po))).1
+        let m₂ := (runModel po (o₂.map (resolveAppend po))).1
+        let eqv := Model.ValueEq.beqJV po
+        let me := if po then Model.MapIndex.beq eqv m₁ m₂ else Model.MapBTree.beq eqv m₁ m₂
+        let se := refDictEq (refOf o₁) (refOf o₂)
+        { model := tf me ++ "/T",
+          spec := some s!"C17 == of maps is not symmetric ({impl}): a == b and b == a differ; as dictionaries the maps are equal: {tf se}" }
+      else bad "decode"
     | _, _, _ => bad "decode"
   | _ => bad "arity"
 
@@ -240,6 +252,14 @@ def mapeq : Handler := fun args impl =>
         else if ie == "T" && (ih != "T" || iw != "T") then some "equal but hashes differ"
         else none
       { model := tf me ++ "/" ++ (if me then "T" else ih) ++ "/" ++ tf mw, spec := spec }
+    | some v₁, some v₂, _ =>
+      if impl.startsWith "?asymmetric" then
+        let po := cfg == "po"
+        let me := Model.ValueEq.beqJV po v₁ v₂
+        let mw := decide (Model.ValueEq.hashJV po v₁ = Model.ValueEq.hashJV po v₂)
+        { model := tf me ++ "/T/" ++ tf mw,
+          spec := some s!"C17 == of values is not symmetric ({impl}): a == b and b == a differ; order-free equality of the values: {tf (Spec.ValueEq.specEq v₁ v₂)}" }
+      else bad "decode"
     | _, _, _ => bad "decode"
   | _ => bad "arity"
 
